@@ -378,7 +378,7 @@ package core
 // CheckAndPutRegion (loading at start-up, region syncer on a follower: one caller at a time) puts only what passes
 // the pre-check; what does not pass is handed back and nothing changes.
 //@ func (*BasicCluster).CheckAndPutRegion
-//@   props C06
+//@   props C06 C17
 //@   requires bc != nil && cacheOK(bc.Regions) && region != nil && allocated(region) && region.meta != nil && allocated(region.meta)
 //@   ensures [keeps-cache-ok] cacheOK(bc.Regions)
 //@   ensures [rejected-changes-nothing] count("PutRegion") == 0 ==> len(result) == 1 && result[0] == region
@@ -596,3 +596,16 @@ package core
 //@   props C17
 //@   ensures [pending-regions-are-written-whenever-a-region-store-exists] s.regionStorage != nil ==> count("FlushRegion") == old(count("FlushRegion")) + 1
 //@   modifies s.regionStorage.cacheSize, s.regionStorage.batchRegions
+
+// IsLowSpace (the storage-threshold filter's test, C10: repairs never target a store that is low on space): a store
+// with statistics counts as NOT low on space only if its available share is at least 1 - ratio, or it is nearly empty
+// (fewer than 30 regions) and still has more than 8 GiB AVAILABLE. Floats are reals here.
+//@ pure lsAvail(s *StoreInfo) = ite(s.storeStats.rawStats == nil, 0, s.storeStats.rawStats.Available)
+//@ pure lsCap(s *StoreInfo) = ite(s.storeStats.rawStats == nil, 0, s.storeStats.rawStats.Capacity)
+//@ func (*StoreInfo).IsLowSpace
+//@   props C10
+//@   requires s != nil && s.storeStats != nil
+//@   ensures [no-statistics-never-low] s.storeStats.rawStats == nil ==> !result
+//@   ensures [not-low-only-with-room] s.storeStats.rawStats != nil && !result ==> (s.regionCount < 30 && lsAvail(s) > 8589934592) || (lsCap(s) != 0 && real(lsAvail(s)) / real(lsCap(s)) >= 1 - lowSpaceRatio) || (lsCap(s) == 0 && lowSpaceRatio >= 1)
+//@   ensures [low-means-small-share] result ==> s.storeStats.rawStats != nil && (lsCap(s) == 0 || real(lsAvail(s)) / real(lsCap(s)) < 1 - lowSpaceRatio)
+//@   modifies nothing
